@@ -164,6 +164,9 @@ struct PrimRun {
         case JV_PR_BI768_MUL: case JV_PR_BI512_MUL: ab = asel ? F : B; bb = bsel ? F : B; ob = (ab == F && bb == F) ? T : Wd; break;
         case JV_PR_BI768_SQR: case JV_PR_BI512_SQR: ab = asel ? F : B; bb = ab; ob = ab == F ? T : Wd; break;
         case JV_PR_FP384_REDC: case JV_PR_FP256_REDC: ab = T; bb = T; ob = F; break;
+        case JV_PR_FP384_ADD: case JV_PR_FP384_SUB: case JV_PR_FP384_DBL: case JV_PR_FP384_NEG: case JV_PR_FP256_ADD: case JV_PR_FP256_SUB: case JV_PR_FP256_DBL: case JV_PR_FP256_NEG:
+            // "all 384-bit operand pairs": modular add/subtract/double/negate also meet operands that are not reduced (bank B) when the plan says so
+            ab = (op.arg(5) & 4) && asel ? B : F; bb = (op.arg(5) & 4) && bsel ? B : F; ob = F; break;
         default: ab = F; bb = F; ob = F; break;
         }
         size_t ia = ra % bank_regs[ab], ib = rb % bank_regs[bb], io = ro % bank_regs[ob];
@@ -218,7 +221,7 @@ struct PrimScenario : Scenario {
                 p.ops.push_back({"PRIM", {w ? JV_PR_FP256_REDC : JV_PR_FP384_REDC, (int64_t) r.below(8), tr, tr, 0, 0}, {}});
             }
             else if (k <= 3) p.ops.push_back({"PAIR", {r.chance(1, 3), (int64_t) r.below(8), (int64_t) r.below(8), (int64_t) r.below(8)}, {rh(48)}});
-            else p.ops.push_back({"PRIM", {(int64_t) r.below(JV_PR_COUNT), (int64_t) r.below(8), (int64_t) r.below(8), (int64_t) r.below(8), r.chance(1, 3), (int64_t) r.below(4)}, {}});
+            else p.ops.push_back({"PRIM", {(int64_t) r.below(JV_PR_COUNT), (int64_t) r.below(8), (int64_t) r.below(8), (int64_t) r.below(8), r.chance(1, 3), (int64_t) r.below(kn("unreduced", 0) ? 8 : 4)}, {}});
         }
         return p;
     }
